@@ -732,6 +732,11 @@ pub fn _parse_grep_line<'b>(regex: &Regex, line: &'b str) -> Option<GrepLine<'b>
         }
     })
     .unwrap(); // The regex matches so one of the three alternatives must have matched
+    if line_number.is_none() && caps.get(3).or(caps.get(5)).or(caps.get(7)).is_some() {
+        // The line number field matched but does not fit a usize: this is not a grep line we
+        // can render (treating the number as absent would misalign the code's style sections).
+        return None;
+    }
     let code = caps.get(8).unwrap().as_str().into();
 
     Some(GrepLine {
